@@ -2,6 +2,7 @@ import LoguruModel.Emit.Lemmas
 import LoguruModel.Emit.NestedLemmas
 import LoguruModel.Emit.Threads
 import LoguruModel.Emit.Stderr
+import LoguruModel.Emit.RemoveLemmas
 /-
 C04 – a failing handler never breaks the caller, the other handlers, or itself.
 Only the property theorems and their non-vacuity examples live here.  Every statement is about
@@ -363,7 +364,8 @@ theorem report_goes_to_current_stderr (h : Stderr.Hist) (first t : Nat) :
 /-- … and what happens depends on the condition of THAT stream only: if it is usable or fails with OSError,
     nothing escapes – whatever became of the streams that were stderr earlier (closed files …) -/
 theorem report_never_escapes_if_current_stderr_tame (h : Stderr.Hist) (first t : Nat)
-    (ht : ∀ e, h.cond (h.cur t) t = .fails e → e = .osError) :
+    (ht : ∀ e, h.cond (h.cur t) t = .fails e → e = .osError)
+    (ht' : ∀ c e, h.cond (h.cur t) t = .failsAt c e → e = .osError) :
     (Stderr.printAt Gen.printResolvesStderrPerCall h first t).escapes = none := by
   have hp : Gen.printResolvesStderrPerCall = true := rfl
   simp only [Stderr.printAt, Stderr.target, hp, if_true]
@@ -372,6 +374,10 @@ theorem report_never_escapes_if_current_stderr_tame (h : Stderr.Hist) (first t :
   · rfl
   · rename_i e he
     have := ht e he
+    subst this
+    simp [Gen.printSwallows]
+  · rename_i c e he
+    have := ht' c e he
     subst this
     simp [Gen.printSwallows]
 
@@ -385,6 +391,146 @@ theorem memoised_stderr_witness :
     (Stderr.printAt false h 0 1).escapes = some .valueError ∧
     (Stderr.printAt true h 0 1) = ⟨1, true, none⟩ := by
   decide
+
+/-! ### round 5 – `ErrorInterceptor.print` write by write (`Emit/Print.lean`; the statements of its `try` body
+are the list `Gen.printProgram` read from `_error_interceptor.py`) -/
+
+/-- the statements of `print`'s `try` body as extracted: header, guarded rendering of the record, record line,
+    traceback, footer – so the writes are the four chunks of a report in this order and every rendering of the
+    record is guarded -/
+theorem print_program_as_documented :
+    Gen.printProgram = [.write .header, .render true, .write .record, .write .traceback, .write .footer] ∧
+    Print.writesOf Gen.printProgram = Print.fullReport ∧ Print.allGuarded Gen.printProgram = true :=
+  ⟨rfl, rfl, rfl⟩
+
+/-- FOR EVERY way `sys.stderr` may refuse writes (any chunk, any error, printable record or not): what reaches
+    stderr is the longest prefix of the report that stderr accepts – nothing after the first refused write, nothing
+    out of order – and the exception leaving the `try` body is the error of the first refused write, swallowed iff
+    `Gen.printSwallows` covers it -/
+theorem print_writes_longest_accepted_prefix (o : Print.Oracle) (hp : o.present = true) :
+    (Print.printP Gen.printProgram o).chunks = Print.fullReport.takeWhile (fun c => (o.wr c).isNone) ∧
+    (Print.printP Gen.printProgram o).chunks <+: Print.fullReport ∧
+    (Print.printP Gen.printProgram o).escapes = Print.afterExcept (Print.firstFail o Print.fullReport) := by
+  rw [printP_spec o hp]
+  exact ⟨rfl, List.takeWhile_prefix _, rfl⟩
+
+/-- … hence a stderr that breaks with OSError – at the header, in the middle of the report, at the footer, or is
+    not there at all – never makes `print` raise, whether or not `str(record)` raises as well -/
+theorem print_never_raises_when_stderr_breaks_with_oserror (o : Print.Oracle)
+    (h : ∀ c e, o.wr c = some e → e = .osError) :
+    (Print.printP Gen.printProgram o).escapes = none := by
+  cases hp : o.present with
+  | false => simp [Print.printP, hp, Gen.printSkipsWhenNoStderr]
+  | true =>
+    rw [printP_spec o hp]
+    simp only []
+    cases hf : Print.firstFail o Print.fullReport with
+    | none => rfl
+    | some e =>
+      obtain ⟨c, _, hw⟩ := firstFail_some o _ e hf
+      have := h c e hw
+      subst this
+      simp [Print.afterExcept, Gen.printSwallows]
+
+/-- the report is complete exactly when stderr accepts every chunk – and then it is complete even for a record
+    whose `str()` raises (placeholder line), and nothing escapes -/
+theorem print_complete_iff_stderr_accepts_all (o : Print.Oracle) (hp : o.present = true) :
+    ((Print.printP Gen.printProgram o).chunks = Print.fullReport ↔ ∀ c, o.wr c = none) ∧
+    ((∀ c, o.wr c = none) → Print.printP Gen.printProgram o = ⟨Print.fullReport, o.strFails, none⟩) := by
+  rw [printP_spec o hp]
+  simp only [Print.fullReport, Print.firstFail, List.takeWhile]
+  constructor
+  · constructor
+    · intro h c
+      cases h1 : o.wr .header <;> cases h2 : o.wr .record <;> cases h3 : o.wr .traceback <;>
+        cases h4 : o.wr .footer <;> simp [h1, h2, h3, h4] at h
+      cases c <;> assumption
+    · intro h; simp [h]
+  · intro h; simp [h, Print.afterExcept]
+
+/-- the model's `print` (what `emit`, the worker and the done-callback call) IS that program: its spelled-out arms
+    for a working / absent / wholly failing stderr coincide with the write-level run under the corresponding
+    oracle, and a stderr that breaks in the middle is defined by it – so every theorem above about `emitD`,
+    `logLoop`, `workerRun`, `runW` covers reports that break off at any chunk -/
+theorem print_is_the_write_level_program (env : Env) (i hid : Nat) (msg : Option Nat) (kind : Err) (src : Src) :
+    print env i hid msg kind src =
+      (eventsOf (Print.printP Gen.printProgram (oracleOf (env.stderr i hid) (strFailsOf env msg))) hid msg kind src,
+       (Print.printP Gen.printProgram (oracleOf (env.stderr i hid) (strFailsOf env msg))).escapes) :=
+  print_eq_printP env i hid msg kind src
+
+/-- in particular the enqueue worker survives a stderr that breaks off in the middle of its report, at any chunk,
+    for every queue content (instance of `worker_never_dies`: `StderrTame` covers `.failsAt c .osError`) -/
+theorem worker_survives_report_breaking_off (env : Env) (c : Cfg) (ch : Chunk) (items : List QItem) (s : HState)
+    (hst : ∀ i h, env.stderr i h = .failsAt ch .osError)
+    (hs : QItem.sentinel ∉ items) (ha : s.workerAlive = true) :
+    (workerRun env c items s).1.workerAlive = true ∧ (workerRun env c items s).1.queue = [] := by
+  have ht : StderrTame env := by
+    constructor
+    · intro i h e he; rw [hst i h] at he; cases he
+    · intro i h c' e he; rw [hst i h] at he; cases he; rfl
+  exact ⟨(worker_never_dies env c ht items s hs ha).1, (worker_never_dies env c ht items s hs ha).2.1⟩
+
+/-! ### round 5 – what `sink.stop()` can raise (`Gen.sinkStop`, read from the `stop` method of every sink class) -/
+
+/-- the table as extracted: a callable and a coroutine sink run no user code in `stop()`, a stream sink runs the
+    stream's `stop()` only if it has one, a `logging.Handler` and a file sink always run user code -/
+theorem sink_stop_table_as_documented :
+    Gen.sinkStop .callable = .noUserCode ∧ Gen.sinkStop .coroutine = .noUserCode ∧
+    Gen.sinkStop .stream = .userIfCapable ∧ Gen.sinkStop .streamFlush = .userIfCapable ∧
+    Gen.sinkStop .standard = .userAlways ∧ Gen.sinkStop .file = .userAlways :=
+  ⟨rfl, rfl, rfl, rfl, rfl, rfl⟩
+
+/-- removing a handler whose sink has nothing of the user's to stop (a function, a coroutine function, a stream
+    object without `stop`) returns normally under EVERY fault oracle, and the handler is gone -/
+theorem remove_without_user_stop_never_raises (env : Env) (hid k : Nat) (w : World) (c : Cfg) (s : HState)
+    (hl : lookup hid w.reg = some (c, s)) (hq : Quiet s) (hn : NoUserStop c) :
+    (removeW env hid k w).res = .ok ∧ (removeW env hid k w).w.reg = erase hid w.reg := by
+  rw [removeW_found env hid k w c s hl]
+  simp [stopH_res env c k s hq, stopFault_none env c k hn, resOf]
+
+/-- … and in general the result of `remove(hid)` is exactly what the sink's own `stop()` raises -/
+theorem remove_result_is_sink_stop_result (env : Env) (hid k : Nat) (w : World) (c : Cfg) (s : HState)
+    (hl : lookup hid w.reg = some (c, s)) (hq : Quiet s) :
+    (removeW env hid k w).res = resOf (stopFault env c k) := by
+  rw [removeW_found env hid k w c s hl]
+  exact stopH_res env c k s hq
+
+/-! ### round 5 – `logger.remove()` of ALL handlers (the loop of `Logger.remove` over `list(core.handlers)`) -/
+
+/-- whatever `stop()` methods raise, `remove()` never blocks, leaves every handler that is still registered in
+    working order, and publishes the minimum level of exactly those -/
+theorem remove_all_keeps_rest_usable (env : Env) (k : Nat) (w : World) (hg : AllGood w.reg)
+    (hm : w.minLevel = minLevelOf w.reg) :
+    AllGood (removeAllW env k w).w.reg ∧ (removeAllW env k w).res ≠ .blocked ∧
+    (removeAllW env k w).w.minLevel = minLevelOf (removeAllW env k w).w.reg :=
+  ⟨(removeLoop_good env k _ w hg).1, (removeLoop_good env k _ w hg).2, removeLoop_minLevel env k _ w hm⟩
+
+/-- EXACT: over handlers with distinct ids, `remove()` removes the handlers up to AND INCLUDING the first one whose
+    `stop()` raises ("removed nonetheless"), that error reaches the caller, and the handlers registered after it stay
+    registered, untouched, with the minimum level recomputed over them -/
+theorem remove_all_stops_at_first_failing_stop (env : Env) (k : Nat) (pre post : Reg) (c : Cfg) (s : HState)
+    (e : Err) (w : World) (hreg : w.reg = pre ++ (c, s) :: post) (hnd : (ids w.reg).Nodup)
+    (hq : AllQuiet w.reg) (hpre : ∀ p ∈ pre, stopFault env p.1 k = none) (hc : stopFault env c k = some e) :
+    (removeAllW env k w).res = .raised e ∧ (removeAllW env k w).w.reg = post ∧
+    (removeAllW env k w).w.minLevel = minLevelOf post := by
+  have h := removeLoop_first_failure env k pre post c s e w hreg (hreg ▸ hnd) (hreg ▸ hq) hpre hc
+  unfold removeAllW
+  rw [hreg]
+  exact h
+
+/-- … and when no `stop()` raises the registry is empty afterwards and the minimum level is +inf -/
+theorem remove_all_empties_registry (env : Env) (k : Nat) (w : World) (hnd : (ids w.reg).Nodup)
+    (hq : AllQuiet w.reg) (hok : ∀ p ∈ w.reg, stopFault env p.1 k = none) (hm : w.reg = [] → w.minLevel = none) :
+    (removeAllW env k w).res = .ok ∧ (removeAllW env k w).w.reg = [] ∧ (removeAllW env k w).w.minLevel = none :=
+  removeLoop_all_ok env k w.reg w rfl hnd hq hok hm
+
+/-- PROGRESS under every fault oracle: each `remove()` on a non-empty registry – returning or raising – removes at
+    least one handler, so calling it as many times as there are handlers (catching what it raises) always ends
+    with an empty registry: no handler can make itself unremovable by failing in `stop()` -/
+theorem remove_all_repeated_empties_registry (env : Env) (ks : List Nat) (w : World) :
+    (w.reg ≠ [] → ∀ k, (removeAllW env k w).w.reg.length < w.reg.length) ∧
+    (w.reg.length ≤ ks.length → (ks.foldl (fun w k => (removeAllW env k w).w) w).reg = []) :=
+  ⟨fun hne k => removeAllW_length_lt env k w hne, removeAll_repeated env ks w⟩
 
 /-! ### non-vacuity: concrete environments meeting the hypotheses, evaluated by the kernel -/
 
@@ -425,11 +571,11 @@ example : (emitD exEnv { id := 1 } 1 5 {}).ev =
 example : (workerRun exEnv { id := 2, enqueue := true } [.bad 7 .other, .msg 0, .msg 1, .confirm, .msg 2]
       { workerAlive := true }).1 = { workerAlive := true, sink := [0, 1, 2] } := by decide
 
-/-- `stop()` raising in `remove`: the handler is gone all the same -/
+/-- `stop()` raising in `remove` (handler 2, a stream with a `stop` method): the handler is gone all the same -/
 example :
-    let env := { exEnv with fault := fun _ h st => if h = 1 ∧ st = .stop then some .osError else none }
+    let env := { exEnv with fault := fun _ h st => if h = 2 ∧ st = .stop then some .osError else none }
     let w : World := { reg := exReg, minLevel := some 0 }
-    (removeW env 1 9 w).res = .raised .osError ∧ (removeW env 1 9 w).w.reg.map (fun p => p.1.id) = [0, 2] := by
+    (removeW env 2 9 w).res = .raised .osError ∧ (removeW env 2 9 w).w.reg.map (fun p => p.1.id) = [0, 1] := by
   decide
 
 /-- registry-level re-entrancy: message 5 makes handler 1's sink log 6 and 7 through the logger; handlers
@@ -445,5 +591,31 @@ example : (loopN exEnv 2 8 exReg).reg.map (fun p => (p.2.sink, p.2.published)) =
       [([8], true), ([], false), ([8], true)] ∧
     (loopN exEnv 2 8 exReg).ev = [.report 1 (some 8) .runtimeError false .emit] ∧
     (loopN exEnv 2 8 exReg).res = .ok := by decide
+
+/-- stderr breaks when the traceback of a report is written: handler 1's KeyError report breaks off after the
+    record line (a partial report), handler 2's OSError likewise; nothing reaches the caller, everybody has the
+    message who should -/
+example :
+    let env := { exEnv with stderr := fun _ _ => .failsAt .traceback .osError }
+    (logLoop env 1 0 exReg).res = .ok ∧
+    (logLoop env 1 0 exReg).reg.map (fun p => p.2.sink) = [[0], [], [0]] ∧
+    (logLoop env 1 0 exReg).ev =
+      [.partialReport 1 (some 0) false [.header, .record] .emit,
+       .partialReport 2 (some 0) false [.header, .record] .emit] := by decide
+
+/-- the write-level program on a stream that refuses the footer with ValueError: three chunks, the error escapes -/
+example : Print.printP Gen.printProgram ⟨true, fun c => if c = .footer then some .valueError else none, true⟩ =
+    ⟨[.header, .record, .traceback], true, some .valueError⟩ := by decide
+
+/-- `remove()` over a callable, a stream whose `stop()` raises and a `logging.Handler`: the first two are removed,
+    OSError reaches the caller, the third stays; a second `remove()` empties the registry -/
+example :
+    let env := { exEnv with fault := fun _ h st => if h = 1 ∧ st = .stop then some .osError else none }
+    let w : World := { reg := [({ id := 0 }, {}), ({ id := 1, kind := .stream }, {}), ({ id := 2, kind := .standard }, {})],
+                       minLevel := some 0 }
+    (removeAllW env 9 w).res = .raised .osError ∧ (removeAllW env 9 w).w.reg.map (fun p => p.1.id) = [2] ∧
+    (removeAllW env 10 (removeAllW env 9 w).w).w.reg = [] ∧
+    stopFault env { id := 0 } 9 = none ∧ NoUserStop { id := 0 } := by
+  refine ⟨by decide, by decide, by decide, by decide, Or.inl rfl⟩
 
 end C04
